@@ -1,0 +1,160 @@
+/* ANSI-C code produced by gperf version 3.1 */
+/* Command-line: /usr/bin/gperf -L ANSI-C --output-file evmeth-gp.c evmeth-gp.erf  */
+/* Computed positions: -k'3' */
+
+#if !((' ' == 32) && ('!' == 33) && ('"' == 34) && ('#' == 35) \
+      && ('%' == 37) && ('&' == 38) && ('\'' == 39) && ('(' == 40) \
+      && (')' == 41) && ('*' == 42) && ('+' == 43) && (',' == 44) \
+      && ('-' == 45) && ('.' == 46) && ('/' == 47) && ('0' == 48) \
+      && ('1' == 49) && ('2' == 50) && ('3' == 51) && ('4' == 52) \
+      && ('5' == 53) && ('6' == 54) && ('7' == 55) && ('8' == 56) \
+      && ('9' == 57) && (':' == 58) && (';' == 59) && ('<' == 60) \
+      && ('=' == 61) && ('>' == 62) && ('?' == 63) && ('A' == 65) \
+      && ('B' == 66) && ('C' == 67) && ('D' == 68) && ('E' == 69) \
+      && ('F' == 70) && ('G' == 71) && ('H' == 72) && ('I' == 73) \
+      && ('J' == 74) && ('K' == 75) && ('L' == 76) && ('M' == 77) \
+      && ('N' == 78) && ('O' == 79) && ('P' == 80) && ('Q' == 81) \
+      && ('R' == 82) && ('S' == 83) && ('T' == 84) && ('U' == 85) \
+      && ('V' == 86) && ('W' == 87) && ('X' == 88) && ('Y' == 89) \
+      && ('Z' == 90) && ('[' == 91) && ('\\' == 92) && (']' == 93) \
+      && ('^' == 94) && ('_' == 95) && ('a' == 97) && ('b' == 98) \
+      && ('c' == 99) && ('d' == 100) && ('e' == 101) && ('f' == 102) \
+      && ('g' == 103) && ('h' == 104) && ('i' == 105) && ('j' == 106) \
+      && ('k' == 107) && ('l' == 108) && ('m' == 109) && ('n' == 110) \
+      && ('o' == 111) && ('p' == 112) && ('q' == 113) && ('r' == 114) \
+      && ('s' == 115) && ('t' == 116) && ('u' == 117) && ('v' == 118) \
+      && ('w' == 119) && ('x' == 120) && ('y' == 121) && ('z' == 122) \
+      && ('{' == 123) && ('|' == 124) && ('}' == 125) && ('~' == 126))
+/* The character set is not based on ISO-646.  */
+#error "gperf generated tables don't work with this execution character set. Please report a bug to <bug-gperf@gnu.org>."
+#endif
+
+#line 1 "evmeth-gp.erf"
+
+typedef enum {
+	METH_UNK,
+	METH_PUBLISH,
+	METH_REQUEST,
+	METH_REPLY,
+	METH_ADD,
+	METH_CANCEL,
+	METH_REFRESH,
+	METH_COUNTER,
+	METH_DECLINECOUNTER,
+} ical_meth_t;
+
+#line 26 "evmeth-gp.erf"
+struct ical_meth_cell_s {
+	const char *methstr;
+	ical_meth_t meth;
+};
+/* maximum key range = 20, duplicates = 0 */
+
+#ifdef __GNUC__
+__inline
+#else
+#ifdef __cplusplus
+inline
+#endif
+#endif
+static unsigned int
+__evical_meth_hash (register const char *str, register size_t len)
+{
+  static const unsigned char asso_values[] =
+    {
+      23, 23, 23, 23, 23, 23, 23, 23, 23, 23,
+      23, 23, 23, 23, 23, 23, 23, 23, 23, 23,
+      23, 23, 23, 23, 23, 23, 23, 23, 23, 23,
+      23, 23, 23, 23, 23, 23, 23, 23, 23, 23,
+      23, 23, 23, 23, 23, 23, 23, 23, 23, 23,
+      23, 23, 23, 23, 23, 23, 23, 23, 23, 23,
+      23, 23, 23, 23, 23, 23, 15,  0,  0, 23,
+      10, 23, 23, 23, 23, 23, 23, 23,  0, 23,
+       0,  5, 23, 23, 23,  0, 23, 23, 23, 23,
+      23, 23, 23, 23, 23, 23, 23, 23, 23, 23,
+      23, 23, 23, 23, 23, 23, 23, 23, 23, 23,
+      23, 23, 23, 23, 23, 23, 23, 23, 23, 23,
+      23, 23, 23, 23, 23, 23, 23, 23
+    };
+  return len + asso_values[(unsigned char)str[2]];
+}
+
+const struct ical_meth_cell_s *
+__evical_meth (register const char *str, register size_t len)
+{
+  enum
+    {
+      TOTAL_KEYWORDS = 8,
+      MIN_WORD_LENGTH = 3,
+      MAX_WORD_LENGTH = 14,
+      MIN_HASH_VALUE = 3,
+      MAX_HASH_VALUE = 22
+    };
+
+  static const struct ical_meth_cell_s wordlist[] =
+    {
+#line 35 "evmeth-gp.erf"
+      {"ADD", METH_ADD},
+#line 34 "evmeth-gp.erf"
+      {"REPLY", METH_REPLY},
+#line 36 "evmeth-gp.erf"
+      {"CANCEL", METH_CANCEL},
+#line 38 "evmeth-gp.erf"
+      {"COUNTER", METH_COUNTER},
+#line 33 "evmeth-gp.erf"
+      {"REQUEST", METH_REQUEST},
+#line 39 "evmeth-gp.erf"
+      {"DECLINECOUNTER", METH_DECLINECOUNTER},
+#line 37 "evmeth-gp.erf"
+      {"REFRESH", METH_REFRESH},
+#line 32 "evmeth-gp.erf"
+      {"PUBLISH", METH_PUBLISH}
+    };
+
+  if (len <= MAX_WORD_LENGTH && len >= MIN_WORD_LENGTH)
+    {
+      register unsigned int key = __evical_meth_hash (str, len);
+
+      if (key <= MAX_HASH_VALUE && key >= MIN_HASH_VALUE)
+        {
+          register const struct ical_meth_cell_s *resword;
+
+          switch (key - 3)
+            {
+              case 0:
+                resword = &wordlist[0];
+                goto compare;
+              case 2:
+                resword = &wordlist[1];
+                goto compare;
+              case 3:
+                resword = &wordlist[2];
+                goto compare;
+              case 4:
+                resword = &wordlist[3];
+                goto compare;
+              case 9:
+                resword = &wordlist[4];
+                goto compare;
+              case 11:
+                resword = &wordlist[5];
+                goto compare;
+              case 14:
+                resword = &wordlist[6];
+                goto compare;
+              case 19:
+                resword = &wordlist[7];
+                goto compare;
+            }
+          return 0;
+        compare:
+          {
+            register const char *s = resword->methstr;
+
+            if (*str == *s && !strncmp (str + 1, s + 1, len - 1) && s[len] == '\0')
+              return resword;
+          }
+        }
+    }
+  return 0;
+}
